@@ -57,6 +57,7 @@ func targetTypes() []protoreflect.MessageDescriptor {
 
 func main() {
 	h := hz.New()
+	enum.SnapshotHeaders = true // a read that re-slices a field has written to the shared struct
 	if h.Prop != "C11" {
 		fmt.Fprintln(os.Stderr, "INTERNAL: engine sched serves C11 only")
 		os.Exit(2)
@@ -131,9 +132,27 @@ type execResult struct {
 
 // execute runs the harness following prefix (indexes into the canonical enabled list), then always
 // choice 0 (keep running the current thread if it is enabled, else the lowest id).
+// buildShared materialises the value. Variants 0/1 build the struct field by field (exact-size slices); variants
+// 2/3 decode the reference encoding with the generated decoder, the way shared messages usually come to be
+// (slices grown by append, spare capacity).
+func buildShared(d protoreflect.Message, variant int) proto.Message {
+	if variant < 2 {
+		return enum.BuildGo(d)
+	}
+	b, err := proto.MarshalOptions{Deterministic: true}.Marshal(d.Interface())
+	if err != nil {
+		panic(err)
+	}
+	g := enum.NewGo(d.Descriptor())
+	if err := proto.Unmarshal(b, g); err != nil {
+		panic(err)
+	}
+	return g
+}
+
 func execute(md protoreflect.MessageDescriptor, variant int, ops [][]readOp, prefix []int) execResult {
 	d := richValue(md, variant)
-	shared := enum.BuildGo(d)
+	shared := buildShared(d, variant)
 	snap0 := enum.Snapshot(shared)
 	s := &sched{toSched: make(chan int)}
 	var res execResult
@@ -237,7 +256,7 @@ func sequentialResults(md protoreflect.MessageDescriptor, variant int, ops [][]r
 	var out [][]string
 	for i := range ops {
 		d := richValue(md, variant)
-		shared := enum.BuildGo(d)
+		shared := buildShared(d, variant)
 		twin := enum.BuildGo(d)
 		px := &pMsg{shared.ProtoReflect(), nopYield{}}
 		var rs []string
@@ -389,7 +408,7 @@ func runScheduler(h *hz.H) {
 			// all ordered pairs, 1 op each, unbounded; plus 3 threads x 1 op and 2 threads x 2 ops with preemption bound 2 on the first types
 			for i := range alpha {
 				for j := range alpha {
-					jobs = append(jobs, job{md, 0, [][]readOp{{alpha[i]}, {alpha[j]}}, 1 << 30, 200000})
+					jobs = append(jobs, job{md, 2 * ((i + j) % 2), [][]readOp{{alpha[i]}, {alpha[j]}}, 1 << 30, 200000})
 				}
 			}
 			if ti < 3 {
@@ -406,7 +425,7 @@ func runScheduler(h *hz.H) {
 					if ti >= 3 && i != j && (i+j)%2 == 1 {
 						continue
 					}
-					jobs = append(jobs, job{md, 0, [][]readOp{{alpha[i]}, {alpha[j]}}, 2, 6000})
+					jobs = append(jobs, job{md, 2 * ((i + j) % 2), [][]readOp{{alpha[i]}, {alpha[j]}}, 2, 6000})
 				}
 			}
 		}
@@ -415,9 +434,9 @@ func runScheduler(h *hz.H) {
 	// against the proxied reads), all types, preemption unbounded (few points per program)
 	fast := fastPathOps()
 	for _, md := range types {
-		for _, a := range fast {
-			for _, b := range fast {
-				jobs = append(jobs, job{md, 1, [][]readOp{{a}, {b}}, 1 << 30, 20000})
+		for ai, a := range fast {
+			for bi, b := range fast {
+				jobs = append(jobs, job{md, 1 + 2*((ai+bi)%2), [][]readOp{{a}, {b}}, 1 << 30, 20000})
 			}
 			if h.Thorough() {
 				for _, j := range quickOps {
@@ -648,9 +667,9 @@ func runRacePass(h *hz.H) {
 	h.Rep.Bounds["partB_operation_tuples"] = len(tuples)
 	h.Rep.Bounds["partB_repetitions_per_tuple"] = reps
 	for _, md := range types {
-		for variant := 0; variant < 2; variant++ {
+		for variant := 0; variant < 4; variant++ {
 			d := richValue(md, variant)
-			ref := enum.BuildGo(d)
+			ref := buildShared(d, variant)
 			twinSeq := enum.BuildGo(d)
 			for _, tp := range tuples {
 				// sequential expectations from independent objects
@@ -659,7 +678,7 @@ func runRacePass(h *hz.H) {
 					want[k] = all[oi].f(ref, twinSeq)
 				}
 				for r := 0; r < reps; r++ {
-					shared := enum.BuildGo(d) // fresh, unprimed object: nothing has sized or marshalled it yet
+					shared := buildShared(d, variant) // fresh, unprimed object: nothing has sized or marshalled it yet
 					var wg sync.WaitGroup
 					start := make(chan struct{})
 					got := make([]string, len(tp))
